@@ -324,7 +324,8 @@ func runRandom(c *mon.Case) {
 
 func Spec() *mon.Spec {
 	return &mon.Spec{
-		ID: "C28", Level: "exploration",
+		ID:            "C28",
+		SpinViolation: true, Level: "exploration",
 		Rule: "phases exhaustive/random: every one of the 26 buffer builtins (edit.VerifBufferBuiltins) is applied at every character-boundary dot of a buffer; invariants (dot in range, on a character boundary, content still valid UTF-8) and the per-class reference (move: content unchanged and target = reference from the docs; kill: exactly the text between the old dot and the corresponding movement's dot removed, dot = the smaller one; transpose: exact expected swap, hence a permutation) are judged after every application. exhaustive = all buffers of <= 5 (quick) / 7 (thorough) symbols over {a, é, 好, +, space, newline, U+0301}; random = buffers of 1..24 pieces over a 60-piece alphabet (ASCII, wide, combining, NBSP/U+3000/NEL/U+2028 whitespace, letter/number categories beyond ASCII). Phase area: a real tk.CodeArea with simple/command/small-word abbreviations, QuotePaste and all builtins bound to keys is fed 1..60 key / bracketed-paste events; after every event its state is compared with a nondeterministic reference model (plain insert, Backspace, Enter, abbreviation expansion per insert_api.d.elv, paste). Non-trivial = every exhaustive case (the complete subtree of buffers under one 3-symbol prefix), every random case (12 buffers; distinct by the buffers), an event sequence in which an abbreviation expanded or a paste was inserted (area; distinct by event script + initial state). Buffer and command-application totals are in the n_* counters.",
 		Assumptions: []string{
 			"word categories as documented in website/ref/edit.md#word-types: whitespace = Unicode White_Space, alphanumerical = Unicode categories L and N; word start = first character of a maximal run of one non-whitespace category",
